@@ -10,7 +10,7 @@ Lemma undo_apply : forall s o,
   exists es, st_journal (fst (step s o)) = es ++ st_journal s /\
              forall q, ask (rewind (length es) (fst (step s o))) q = ask s q.
 Proof.
-  intros s o [Hk _] Hp. destruct (step_ext s o Hk Hp) as (_ & _ & _ & es & J & E).
+  intros s o [Hk _] Hp. destruct (step_ext s o Hk Hp) as (_ & _ & _ & _ & _ & es & J & E).
   exists es; split; auto. intro q; apply ask_eqv; auto.
 Qed.
 
@@ -82,10 +82,10 @@ Definition clean_unkept (s : state) : Prop :=
   forall a o, st_objs s a = Some o -> kept s a = false ->
     opt_rel (obj_eqv (st_destruct s a)) (Some o) (option_map new_object (st_trie s a)).
 
-Lemma copy_observables : forall s, clean_unkept s -> forall q, ask (copy s) q = ask s q.
+Lemma copy_observables : forall s, st_crashed s = false -> clean_unkept s -> forall q, ask (copy s) q = ask s q.
 Proof.
-  intros s Hc q. apply ask_eqv. constructor; cbn [copy st_trie st_destruct st_refund st_logs st_logsize
-    st_preimages st_aladdrs st_alslots st_transient]; auto.
+  intros s Hcr Hc q. apply ask_eqv. constructor; cbn [copy st_trie st_destruct st_refund st_logs st_logsize
+    st_preimages st_aladdrs st_alslots st_transient st_crashed]; auto.
   intro a. unfold peek; cbn [copy st_objs st_trie st_destruct]. fold (kept s a).
   destruct (kept s a) eqn:K.
   - destruct (st_objs s a); [cbn; apply obj_eqv_refl|]. apply opt_rel_refl, obj_eqv_refl.
